@@ -38,3 +38,14 @@ Print Assumptions C11_cache_is_the_modelled_one.
 Theorem C11_clone_starts_with_empty_caches : clone_code = reviewed_clone_code.
 Proof. exact clone_code_is_the_reviewed_one. Qed.
 Print Assumptions C11_clone_starts_with_empty_caches.
+
+
+(* the classes whose instances make up the cache keys (shapes, fields, accessors, crowns / name layouts) compare as
+   reviewed: frozen dataclasses comparing all their fields (only the derived `fields_dict` is left out), hand-written
+   __hash__ coarser than equality, accessors compared by everything that reaches generated code.  The list is regenerated
+   from /repo on every run; a change that takes a field out of the comparison breaks this obligation *)
+From AV Require Generated.CacheKeyClasses Proofs.CacheKeysAudit.
+Theorem C11_cache_key_classes_are_the_reviewed_ones :
+  CacheKeyClasses.cache_key_classes = CacheKeysAudit.reviewed_cache_key_classes.
+Proof. exact CacheKeysAudit.cache_key_classes_are_the_reviewed_ones. Qed.
+Print Assumptions C11_cache_key_classes_are_the_reviewed_ones.
